@@ -40,14 +40,17 @@ ASSUMPTIONS = ['no veriT binary and no recorded proof files in the repository (s
 REQUIRED = {'quick': {'rules_accepted_on_correct_instance': 50, 'accepted_judged': 1800, 'rejected': 3500,
                       'nearmiss_accepted_judged': 150, 'oracle:held': 1600, 'e2e_scripts_validated': 120,
                       'e2e_steps_accepted': 900, 'e2e_subproof_closings_checked': 60,
-                      'e2e_subproof_closings_with_several_assumptions': 30, 'e2e_subproof_assumption_after_nested_block': 10},
+                      'e2e_subproof_closings_with_several_assumptions': 30, 'e2e_subproof_assumption_after_nested_block': 10,
+                      'e2e_fo_closing_accepted:proper-block': 5, 'e2e_fo_closing_rejected:empty-block': 20},
             'thorough': {'rules_accepted_on_correct_instance': 50, 'accepted_judged': 40000, 'rejected': 100000,
                          'nearmiss_accepted_judged': 5000, 'oracle:held': 35000, 'e2e_scripts_validated': 3000,
                          'e2e_steps_accepted': 20000, 'e2e_subproof_closings_checked': 1200,
                          'e2e_subproof_closings_with_several_assumptions': 600,
-                         'e2e_subproof_assumption_after_nested_block': 200}}
+                         'e2e_subproof_assumption_after_nested_block': 200,
+                         'e2e_fo_closing_accepted:proper-block': 100, 'e2e_fo_closing_rejected:empty-block': 400}}
 SHARD_TIMEOUT = {'quick': 600, 'thorough': 3600}
 
+BLOCK_CLOSERS = ('subproof', 'bind', 'sko_ex', 'sko_forall', 'onepoint', 'let')
 DISCHARGING = ('verit_bind', 'verit_sko_ex', 'verit_sko_forall', 'verit_let', 'verit_subproof', 'verit_onepoint')
 
 
@@ -139,6 +142,7 @@ class Monitor:
         self.rule = None
         self.cache = {}
         self.last = None       # verdict of the most recent acceptance (status, mech or None)
+        self.last_prevs = []   # premises (Thm objects) of the most recent acceptance
         self.installed = []
         self.accepted_macros = set()
 
@@ -175,6 +179,7 @@ class Monitor:
             c.count('accepted')
             c.count('acc:' + name)
             mon.accepted_macros.add(name)
+            mon.last_prevs = list(prevs) if prevs is not None else []
             try:
                 mon.on_accept(name, args, prevs, th)
             except Exception as e:
@@ -631,6 +636,15 @@ def build_script(rng, want_sat):
                 hid = '%s.h%d' % (sp, i + 1)
                 hids.append(hid)
                 lines.append((hid, '(assume %s %s)' % (hid, smt(As[i])), 'assume'))
+        if rng.random() < 0.15:
+            # a block WITHOUT any step (only assumptions, or nothing at all): its closing step has no last step to
+            # conclude from and cannot be justified; the clause offered is what a checker that took the step just
+            # before the anchor for the last step of the block would accept
+            units = [cl_[0] for sid_, cl_ in clauses[-1:] if len(cl_) == 1 and sid_.startswith('t')]
+            concl = units[0] if units and rng.random() < 0.8 else (As[0] if rng.random() < 0.5 else e.lit())
+            lines.append((sp, '(step %s (cl %s) :rule subproof)' % (sp, ' '.join(smt(x) for x in [('not', a) for a in As] + [concl])),
+                          'subproof'))
+            return sp
         n[0] += 1
         inner = '%s.t%d' % (sp, n[0])
         if use_outer:
@@ -711,6 +725,91 @@ def build_script(rng, want_sat):
     return e.atoms, lines, assms
 
 
+def check_closing(ctx, mon, recon, kept, sid, rule, atoms):
+    """the last step a closing step (subproof, bind, sko_*, onepoint, let) concludes from must be the last step of
+    ITS OWN block; kept[-1] is the closing step that was just accepted"""
+    from smt.veriT import command
+    ctx.count('e2e_block_closings_accepted')
+    ctx.count('e2e_block_closings_accepted:' + rule)
+    prevk = kept[-2] if len(kept) >= 2 else None
+    inside = prevk is not None and not isinstance(prevk[3], command.Anchor) and prevk[0].startswith(sid + '.')
+    wit = {'e2e_text': [list(x[:3]) for x in kept], 'atoms': atoms, 'step': sid}
+    if not inside:
+        ctx.violation('e2e:%s:closing-step-of-a-block-without-steps-accepted' % rule,
+                      'step %s (%s) closes a block that contains no step (the line before it is %s), yet it was '
+                      'accepted' % (sid, rule, prevk[1] if prevk else None), wit)
+    elif mon.last_prevs and recon.pts.get(prevk[3].id) is not None and \
+            not any(p is recon.pts[prevk[3].id].th for p in mon.last_prevs):
+        ctx.violation('e2e:%s:closing-step-concludes-from-a-step-outside-its-block' % rule,
+                      'step %s (%s): none of the premises handed to the rule is the sequent of %s, the last step '
+                      'of its block' % (sid, rule, prevk[0]), wit)
+
+
+FO_TEMPLATES = [
+    # (lines before, block lines, closing step, is the block empty?)
+    # control: a proper bind block (refl, cong, bind) - must be accepted, and concludes from its own last step
+    ([], ['(anchor :step {t} :args ((:= ({x} U) {y})))', '(step {t}.t1 (cl (= {x} {y})) :rule refl)',
+          '(step {t}.t2 (cl (= ({p} {x}) ({p} {y}))) :rule cong :premises ({t}.t1))'],
+     '(step {t} (cl (= (forall (({x} U)) ({p} {x})) (forall (({y} U)) ({p} {y})))) :rule bind)', False),
+    # an anchor closed at once: no step to conclude from; the line before the anchor has the shape bind expects
+    (['(assume {a} (= ({p} {x}) true))'], ['(anchor :step {t} :args ((:= ({x} U) {x})))'],
+     '(step {t} (cl (= (forall (({x} U)) ({p} {x})) (forall (({x} U)) true))) :rule bind)', True),
+    (['(assume {a} (= ({p} {x}) ({q} {x})))'], ['(anchor :step {t} :args ((:= ({x} U) {x})))'],
+     '(step {t} (cl (= (forall (({x} U)) ({p} {x})) (forall (({x} U)) ({q} {x})))) :rule bind)', True),
+    (['(assume {a} (= ({p} {x}) ({q} {x})))'], ['(anchor :step {t} :args ((:= ({x} U) {x})))'],
+     '(step {t} (cl (= (exists (({x} U)) ({p} {x})) (exists (({x} U)) ({q} {x})))) :rule bind)', True),
+    # the same with an unrelated block closed just before (the "last step" of a checker that remembers the previous
+    # step would be that block's closing step)
+    (['(assume {a} (= ({p} {x}) ({q} {x})))', '(anchor :step {t}0 :args ((:= ({x} U) {y})))', '(step {t}0.t1 (cl (= {x} {y})) :rule refl)',
+      '(step {t}0.t2 (cl (= ({p} {x}) ({p} {y}))) :rule cong :premises ({t}0.t1))',
+      '(step {t}0 (cl (= (forall (({x} U)) ({p} {x})) (forall (({y} U)) ({p} {y})))) :rule bind)'],
+     ['(anchor :step {t} :args ((:= ({x} U) {y})))'],
+     '(step {t} (cl (= (forall (({x} U)) ({p} {x})) (forall (({y} U)) ({p} {y})))) :rule bind)', True),
+]
+
+
+def run_e2e_fo(ctx, mon, rng, idx):
+    """first-order scripts for the closing rules that generalise (bind): proper blocks and blocks without steps"""
+    from smt.veriT import proof_parser, proof_rec, command
+    from kernel.type import TVar, TFun, BoolType
+    U = TVar('U')          # the proof parser reads an uninterpreted sort as a type variable
+    nm = dict(zip(['x', 'y', 'p', 'q'], rng.sample(['x', 'y', 'z', 'w'], 2) + rng.sample(['p', 'q', 'r'], 2)))
+    nm.update(t='t%d' % rng.randint(1, 9), a='a%d' % rng.randint(0, 5))
+    pctx = {nm['x']: U, nm['y']: U, nm['p']: TFun(U, BoolType), nm['q']: TFun(U, BoolType)}
+    before, block, closing, empty = rng.choice(FO_TEMPLATES)
+    texts = [l.format(**nm) for l in before + block + [closing]]
+    mon.label = 'e2e'
+    parser = proof_parser.proof_parser(pctx)
+    try:
+        steps = [parser.parse(t) for t in texts]
+    except Exception as ex:
+        ctx.count('e2e_fo_parse_error')
+        ctx.note('e2e-fo parse error: %s on %s' % (str(ex)[:120], texts))
+        return
+    recon = proof_rec.ProofReconstruction([])
+    kept = []
+    for txt, st in zip(texts, steps):
+        recon.steps.append(st)
+        recon.steps_dict[st.id] = st
+        recon.step_map[st.id] = st
+        rule = 'anchor' if isinstance(st, command.Anchor) else ('assume' if isinstance(st, command.Assume) else st.rule_name)
+        try:
+            recon.validate_step(st, is_eval=True)
+        except Exception:
+            recon.steps.pop()
+            ctx.count('e2e_fo_steps_rejected')
+            if txt == texts[-1]:
+                ctx.count('e2e_fo_closing_rejected:' + ('empty-block' if empty else 'proper-block'))
+            continue
+        kept.append((st.id, txt, rule, st))
+        if isinstance(st, command.Step) and rule in BLOCK_CLOSERS:
+            if txt == texts[-1]:
+                ctx.count('e2e_fo_closing_accepted:' + ('empty-block' if empty else 'proper-block'))
+            check_closing(ctx, mon, recon, kept, st.id, rule, sorted(pctx))
+    ctx.count('e2e_fo_scripts')
+    ctx.case(('e2e-fo', tuple(texts)), nontrivial=True, sample='\n'.join(texts)[:400] if idx < 1 else None)
+
+
 def run_e2e_script(ctx, mon, rng, idx, text_lines=None, atoms=None):
     from smt.veriT import proof_parser, proof_rec, command
     from kernel.type import BoolType
@@ -760,6 +859,8 @@ def run_e2e_script(ctx, mon, rng, idx, text_lines=None, atoms=None):
                 pass
             continue
         kept.append((sid, txt, rule, st))
+        if isinstance(st, command.Step) and rule in BLOCK_CLOSERS:
+            check_closing(ctx, mon, recon, kept, sid, rule, atoms)
         if isinstance(st, command.Step):
             accepted_ids.add(sid)
             ctx.count('e2e_steps_accepted')
@@ -855,6 +956,8 @@ def run_e2e(ctx, spec):
     mon.install()
     for i in range(spec['scripts']):
         run_e2e_script(ctx, mon, ctx.rng, i)
+        if i % 2 == 0:
+            run_e2e_fo(ctx, mon, ctx.rng, i)
 
 
 # ====================================================================== entry points
